@@ -16,7 +16,9 @@ Long == {Rep(97, 255), Rep(97, 256), Rep(97, 255) \o <<58, 58>> \o Rep(98, 255),
          SysName \o <<58, 58>> \o Rep(97, 255), SysName \o <<58, 58>> \o Rep(97, 256),
          Rep(97, 255) \o <<58, 58>> \o Rep(97, 255) \o <<58, 58>> \o Rep(97, 255) \o <<58, 58>> \o Rep(97, 252),     \* 1023 bytes
          Rep(97, 255) \o <<58, 58>> \o Rep(97, 255) \o <<58, 58>> \o Rep(97, 255) \o <<58, 58>> \o Rep(97, 253)}     \* 1024 bytes
-Texts == {Text([i \in 1 .. Len(ts) |-> ts[i]]) : ts \in TokSeqs} \cup Long
+\* a two-byte character placed around the length limits of a component (255) and of the path (1023)
+Wide == {Rep(97, k) \o <<195, 169>> \o Rep(97, j) : k \in 1019 .. 1024, j \in 0 .. 2} \cup {Rep(97, k) \o <<195, 169>> \o Rep(98, j) : k \in 252 .. 256, j \in 0 .. 1}
+Texts == {Text([i \in 1 .. Len(ts) |-> ts[i]]) : ts \in TokSeqs} \cup Long \cup Wide
 Declared(n) == {n, n + 1} \cup (IF n > 0 THEN {n - 1} ELSE {})
 Init == phase = "init" /\ \E t \in Texts : \E d \in Declared(Len(t)) : sc = U16Bytes(d) \o t
 Next == /\ phase = "init" /\ phase' = "done" /\ sc' = sc
